@@ -1,0 +1,27 @@
+//go:build verif
+
+package build
+
+import (
+	"io/fs"
+
+	"chainguard.dev/apko/pkg/apk/apk"
+)
+
+// Wrappers for the verification harness of property C15 (build tag verif
+// only). They add no behaviour.
+
+// VerifC15GroupCount runs groupByOriginAndSize and reports how many groups it made.
+func VerifC15GroupCount(pkgs []*apk.Package, budget int) (int, error) {
+	gs, err := groupByOriginAndSize(pkgs, budget)
+	return len(gs), err
+}
+
+// VerifC15ReadReleaseData runs readReleaseData and reports ID, NAME and VERSION_ID.
+func VerifC15ReadReleaseData(fsys fs.FS) (id, name, version string, err error) {
+	rd, err := readReleaseData(fsys)
+	if err != nil || rd == nil {
+		return "", "", "", err
+	}
+	return rd.ID, rd.Name, rd.VersionID, nil
+}
